@@ -437,10 +437,10 @@ def larger_designs_end_to_end(chunk, replay=None):
                 failures.append(dict(clause="big.allocation_equals_the_geometric_overlap", observed=bad, **info))
             if not samples:
                 samples.append(dict(die=die_doc, modules=list(doc["Modules"].items())[:3], cells=len(cells)))
-        if len(failures) >= 4 or replay:
+        if len([f_ for f_ in failures if 'Invalid allocation for' not in str(f_.get('observed', ''))]) >= 4 or replay:      # failures of the recorded known finding do not end the run early
             break
     Rectangle.undefine_epsilon()
-    return dict(evaluations=evals, distinct_nontrivial=nontriv, exhaustive=False, failures=failures[:4],
+    return dict(evaluations=evals, distinct_nontrivial=nontriv, exhaustive=False, failures=sorted(failures, key=lambda f_: 'Invalid allocation for' in str(f_.get('observed', '')))[:4] + [f_ for f_ in failures if 'Invalid allocation for' in str(f_.get('observed', ''))][:1],
                 rule="random dies on an integer lattice (up to 3 blockages / specialised regions, up to 3 fixed modules disjoint from them, optionally "
                      "refined into >= 3 or 7 regions) with netlists of 3-7 modules (squares from area and centre possibly sticking out, L-shaped soft and "
                      "hard modules, fixed blocks), with and without zero entries (the latter only when every module touches a cell); expected allocation "
